@@ -119,6 +119,8 @@ pub struct Scenario {
     pub ctl: Vec<COp>,
     pub cut_after_frames: Option<u64>,
     pub relay_seed: u64,
+    /// one-way link latency (virtual ms) once the scenario proper starts
+    pub latency_ms: u64,
 }
 
 const GROUP: &str = "verif-c20";
@@ -292,6 +294,7 @@ async fn main_task(w: W, sc: Arc<Scenario>) {
         let mut g = relay.ctl.lock().unwrap();
         g.cut_after_frames = Some(g.frames + n);
     }
+    relay.ctl.lock().unwrap().latency_ms = sc.latency_ms;
     w.lock().unwrap().started = true;
     verif::emit_kv("obs.start", 0, 0, vec![]);
     for (i, ops) in sc.callers.iter().enumerate() {
@@ -499,6 +502,34 @@ pub fn micro_scenarios() -> Vec<Scenario> {
             ctl: vec![C::Sleep(20), C::Flush(0, 1), C::Sleep(20), C::Flush(0, 0)],
             cut_after_frames: None,
             relay_seed: 1,
+            latency_ms: 0,
+        },
+        // a slow link: the first caller gives up while the reply to its call is still in flight; the next
+        // call through the same proxy is made before that late reply arrives (abandoned + outstanding calls)
+        Scenario {
+            hold: vec![true],
+            late: false,
+            callers: vec![
+                vec![Call { d: 0, x: 0, timeout_ms: 25 }],
+                vec![Sleep(26), Call { d: 0, x: 0, timeout_ms: 300 }, Call { d: 0, x: 0, timeout_ms: 300 }],
+            ],
+            ctl: vec![C::Sleep(22), C::Flush(0, 0), C::Sleep(40), C::Flush(0, 0), C::Sleep(40), C::Flush(0, 0)],
+            cut_after_frames: None,
+            relay_seed: 6,
+            latency_ms: 10,
+        },
+        // the same in the other direction with two abandoned calls and a cast in between
+        Scenario {
+            hold: vec![true],
+            late: false,
+            callers: vec![
+                vec![Call { d: 1, x: 0, timeout_ms: 12 }, Call { d: 1, x: 0, timeout_ms: 12 }, Cast { d: 1, x: 0 }, Call { d: 1, x: 0, timeout_ms: 200 }],
+                vec![Sleep(14), Call { d: 1, x: 0, timeout_ms: 200 }],
+            ],
+            ctl: vec![C::Sleep(10), C::Flush(0, 0), C::Sleep(13), C::Flush(0, 1), C::Sleep(30), C::Flush(0, 0), C::Sleep(30), C::Flush(0, 0)],
+            cut_after_frames: None,
+            relay_seed: 7,
+            latency_ms: 5,
         },
         // both directions at once, immediate replies, the probe joins and leaves the group meanwhile
         Scenario {
@@ -508,6 +539,7 @@ pub fn micro_scenarios() -> Vec<Scenario> {
             ctl: vec![C::Join(0), C::Pause, C::Leave(0), C::Join(0)],
             cut_after_frames: None,
             relay_seed: 2,
+            latency_ms: 0,
         },
         // the original stops while requests are on their way
         Scenario {
@@ -517,6 +549,7 @@ pub fn micro_scenarios() -> Vec<Scenario> {
             ctl: vec![C::Join(0), C::Pause, C::Stop(0)],
             cut_after_frames: None,
             relay_seed: 3,
+            latency_ms: 0,
         },
         // the connection is cut while calls are outstanding
         Scenario {
@@ -526,6 +559,7 @@ pub fn micro_scenarios() -> Vec<Scenario> {
             ctl: vec![C::Join(0), C::Pause, C::Pause, C::Cut, C::Sleep(10), C::Flush(0, 0)],
             cut_after_frames: None,
             relay_seed: 4,
+            latency_ms: 0,
         },
         // a late probe: proxies appear, join, get used, and the probe exits
         Scenario {
@@ -535,6 +569,7 @@ pub fn micro_scenarios() -> Vec<Scenario> {
             ctl: vec![C::SpawnLate, C::Join(1), C::Sleep(5), C::Stop(1)],
             cut_after_frames: None,
             relay_seed: 5,
+            latency_ms: 0,
         },
     ]
 }
@@ -600,7 +635,8 @@ pub fn rand_scenario(rng: &mut Rng) -> Scenario {
         }
     }
     let cut_after_frames = if !cut && rng.chance(1, 6) { Some(1 + rng.below(8) as u64) } else { None };
-    Scenario { hold, late, callers, ctl, cut_after_frames, relay_seed: rng.next() }
+    let latency_ms = [0, 0, 0, 2, 4, 9][rng.below(6)];
+    Scenario { hold, late, callers, ctl, cut_after_frames, relay_seed: rng.next(), latency_ms }
 }
 
 pub fn batch(out: &str, tier: &str, seed: u64) -> Value {
